@@ -19,7 +19,11 @@ def generate(repo):
     g.emit('// ---- declarations cut verbatim from /repo/src/dynamic_roots.rs (`\'gc` dropped, Gc<\'gc, ()> -> GcRef, fields made pub for the spec module)')
     g.emit('pub mod decl {')
     g.emit('use super::{GcRef, Index};')
-    g.emit('pub const NULL_INDEX: Index = %s;' % d['null_index'])
+    ni = d['null_index'].replace(' ', '')
+    # spellings of the same constant (bitwise not of zero is the maximum of an unsigned type): normalised so that the lemma layer sees one form
+    if ni in ('!0', '!0usize', '!0_usize', 'Index::MAX', 'core::usize::MAX', 'std::usize::MAX', 'usize::max_value()', 'usize::MAX'):
+        ni = 'usize::MAX'
+    g.emit('pub const NULL_INDEX: Index = %s;' % ni)
     slot = d['slot'].replace("<'gc>", "").replace("Gc<'gc, ()>", "GcRef").strip()
     slots = d['slots'].replace("<'gc>", "").strip()
     if not re.match(r'enum Slot\s*\{', slot) or not re.match(r'struct Slots\s*\{', slots):
